@@ -149,10 +149,7 @@ func c04Run(args []string) int {
 			res := c04Result{ID: job.ID, Outcome: "timeout", Ms: float64(time.Since(t0).Microseconds()) / 1000}
 			for _, g := range strings.Split(string(buf), "\n\n") {
 				if strings.Contains(g, "main.c04RunJob") {
-					fr := framesOf(g, 60)
-					if len(fr) > 40 {
-						fr = fr[:40]
-					}
+					fr := framesOf(g, 200)
 					res.Stack = fr
 					break
 				}
